@@ -467,3 +467,163 @@ def expected_effects(src):
         else:
             raise Unsupported(type(s).__name__)
     return out
+
+
+# --- family "syntax": constructs the clean tree REJECTS but a feature patch might accept ------------------
+# Rule: if the compiler accepts the program, the helper calls must be chained in Python's order.  Python's
+# order is obtained by EXECUTING the same body under CPython with recording stubs (ground truth, not a model).
+SX_HEADER = '''from guppylang import guppy
+from guppylang.std.builtins import result, array
+
+
+@guppy
+def c1(v: int) -> int:
+    result("c1", v)
+    return v + 1
+
+
+@guppy
+def c2(v: int) -> int:
+    result("c2", v)
+    return v + 2
+
+
+@guppy
+def c3(v: int) -> int:
+    result("c3", v)
+    return v + 3
+
+
+@guppy
+def c4(v: int) -> int:
+    result("c4", v)
+    return v + 4
+
+
+@guppy
+def d1(v: int, w: int) -> int:
+    result("d1", v)
+    return v - w
+
+
+@guppy
+def sub3(x: int, y: int, z: int) -> int:
+    result("sub3", x)
+    return x - y - z
+
+
+@guppy.struct
+class S:
+    x: int
+    y: int
+
+    @guppy
+    def get2(self: "S", k: int, j: int) -> int:
+        result("get2", k)
+        return self.y + k - j
+
+
+@guppy
+def mk1(v: int) -> S:
+    result("mk1", v)
+    return S(v, v + 1)
+
+
+'''
+SX_DFLT = '''@guppy
+def dflt(x: int, y: int = 5) -> int:
+    result("dflt", x)
+    return x - y
+
+
+'''
+SX_HELPERS = ["c1", "c2", "c3", "c4", "d1", "sub3", "dflt", "get2", "mk1", "inner"]
+
+SYNTAX_FAMILIES = [
+    ("keyword-args", "    _r = d1(w=c1(a), v=c2(b))\n    return a\n"),
+    ("keyword-args", "    _r = d1(v=c1(a), w=c2(b))\n    return a\n"),
+    ("keyword-args", "    _r = sub3(c1(a), z=c2(b), y=c3(a))\n    return a\n"),
+    ("keyword-args", "    _r = sub3(z=c1(a), y=c2(b), x=c3(a))\n    return a\n"),
+    ("keyword-args", "    _r = d1(c1(a), w=c2(b)) + d1(w=c3(a), v=c4(b))\n    return a\n"),
+    ("keyword-args-method", "    _r = mk1(c1(a)).get2(j=c2(b), k=c3(a))\n    return a\n"),
+    ("keyword-args-method", "    _r = mk1(c1(a)).get2(c2(b), j=c3(a))\n    return a\n"),
+    ("keyword-args-constructor", "    _s = S(y=c1(a), x=c2(b))\n    return a\n"),
+    ("keyword-args-constructor", "    _s = S(c1(a), y=c2(b))\n    return a\n"),
+    ("keyword-args-nested-function", "    def inner(x: int, y: int) -> int:\n        return x - y\n    _r = inner(y=c1(a), x=c2(b))\n    return a\n"),
+    ("default-values", "    _r = dflt(c1(a)) + dflt(c2(b), c3(a))\n    return a\n"),
+    ("default-values", "    _r = dflt(y=c1(a), x=c2(b))\n    return a\n"),
+    ("star-args-call", "    _t = (c1(a), c2(b))\n    _r = d1(*_t)\n    return a\n"),
+    ("star-args-call", "    _r = d1(*(c1(a), c2(b)))\n    return a\n"),
+    ("star-args-call", "    _r = sub3(c1(a), *(c2(b), c3(a)))\n    return a\n"),
+    ("star-args-call", "    _r = sub3(*(c1(a), c2(b)), c3(a))\n    return a\n"),
+    ("double-star-kwargs", "    _r = d1(**{\"w\": c1(a), \"v\": c2(b)})\n    return a\n"),
+    ("double-star-kwargs", "    _k = {\"v\": c1(a), \"w\": c2(b)}\n    _r = d1(**_k)\n    return a\n"),
+    ("double-star-kwargs", "    _r = sub3(c1(a), **{\"z\": c2(b), \"y\": c3(a)})\n    return a\n"),
+    ("starred-display", "    _t = (c1(a), *(c2(b), c3(a)), c4(b))\n    return a\n"),
+    ("starred-display", "    _l = [c1(a), *[c2(b), c3(a)]]\n    return a\n"),
+    ("starred-display", "    _x, *_y = (c1(a), c2(b), c3(a))\n    return a\n"),
+    ("dict-display", "    _d = {c1(a): c2(b), c3(a): c4(b)}\n    return a\n"),
+    ("dict-display", "    _d = {\"p\": c1(a), \"q\": c2(b), **{\"r\": c3(a)}}\n    return a\n"),
+    ("set-display", "    _s = {c1(a), c2(b), c3(a)}\n    return a\n"),
+    ("f-string", "    _s = f\"{c1(a)}-{c2(b)}:{c3(a)}\"\n    return a\n"),
+    ("f-string", "    result(f\"t{c1(a)}\", c2(b))\n    return a\n"),
+    ("lambda", "    _g = lambda v, w: d1(c1(v), c2(w))\n    _r = _g(c3(a), c4(b))\n    return a\n"),
+    ("lambda", "    _r = (lambda v: c1(v) + c2(v))(c3(a))\n    return a\n"),
+    ("list-display", "    _l = [c1(a), c2(b), c3(a)]\n    return a\n"),
+    ("generator-arg", "    _r = d1(*(c1(i) for i in (a, b)))\n    return a\n"),
+]
+
+
+def syntax_programs():
+    # a helper that itself uses rejected syntax (default values) is only part of the programs of its family,
+    # so that its rejection cannot mask the other families
+    return [{"family": fam, "body": body,
+             "src": SX_HEADER + (SX_DFLT if "dflt(" in body else "")
+             + "@guppy\ndef main(a: int, b: int, c: bool) -> int:\n" + body}
+            for fam, body in SYNTAX_FAMILIES]
+
+
+def nested_body_calls(body):
+    """names called inside lambda / nested function bodies of `main` (they live in another HUGR function)"""
+    tree = ast.parse("def main(a, b, c):\n" + body)
+    out = set()
+    for n in ast.walk(tree.body[0]):
+        if isinstance(n, (ast.Lambda, ast.FunctionDef)) and n is not tree.body[0]:
+            for m in ast.walk(n):
+                if isinstance(m, ast.Call) and isinstance(m.func, ast.Name):
+                    out.add("call:" + m.func.id)
+    return out
+
+
+def python_order_by_execution(body):
+    """Run the body of `main` under CPython with recording stubs; returns the helper calls in the order
+    Python performs them (labels `call:<helper>`)."""
+    log = []
+
+    def stub(name, fn):
+        def f(*args, **kw):
+            log.append("call:" + name)
+            return fn(*args, **kw)
+        f.__name__ = name
+        return f
+
+    class S:
+        def __init__(self, x, y):
+            self.x, self.y = x, y
+
+        def get2(self, k, j):
+            log.append("call:get2")
+            return self.y + k - j
+    env = {"S": S, "array": lambda *xs: list(xs), "result": lambda tag, v: None,
+           "c1": stub("c1", lambda v: v + 1), "c2": stub("c2", lambda v: v + 2), "c3": stub("c3", lambda v: v + 3),
+           "c4": stub("c4", lambda v: v + 4), "d1": stub("d1", lambda v, w: v - w),
+           "sub3": stub("sub3", lambda x, y, z: x - y - z), "dflt": stub("dflt", lambda x, y=5: x - y),
+           "mk1": stub("mk1", lambda v: S(v, v + 1))}
+    src = "def main(a, b, c):\n" + body
+    # nested `def inner` is a plain Python function: record its call as well
+    src = src.replace("    def inner(x: int, y: int) -> int:\n        return x - y\n",
+                      "    def inner(x, y):\n        _log.append('call:inner')\n        return x - y\n")
+    env["_log"] = log
+    exec(compile(src, "<c05-syntax>", "exec"), env)
+    env["main"](1, 2, True)
+    return log
